@@ -35,7 +35,7 @@ inductive Role
   | pollLoop
   /-- the goroutine executing `netFD.dial`/`connect` on a netFD nobody else can reach yet (net_netfd.go:108-110). -/
   | dialPhase
-  /-- the ShardQueue worker: `runNum` 0→1 winner until it stores 0 (mux/shard_queue.go:136,163). -/
+  /-- the ShardQueue worker: `runNum` 0→1 winner until it stores 0 (mux/shard_queue.go:153,180). -/
   | runNum
   deriving DecidableEq, Repr
 
@@ -45,9 +45,9 @@ inductive Lock
   | opcacheLocked
   /-- `operatorCache.freelocked` spin lock (fd_operator_cache.go:69-71,75-76). -/
   | opcacheFreelocked
-  /-- `ShardQueue.locks[shard]` spin lock (mux/shard_queue.go:97-100,146-150). -/
+  /-- `ShardQueue.locks[shard]` spin lock (mux/shard_queue.go:101-104,128-130,163-167). -/
   | shardLock
-  /-- `queueTrigger.listLock` mutex (mux/shard_queue.go:123-126). -/
+  /-- `queueTrigger.listLock` mutex (mux/shard_queue.go:140-143). -/
   | listLock
   /-- the `sync.Mutex` embedded in `eventLoop` (netpoll_unix.go:148-151,161-164). -/
   | evlMutex
@@ -298,17 +298,18 @@ def policyTab : List (Nm × Disc) := [
   -- ---------------------------------------------------------------- mux.ShardQueue (mux/shard_queue.go:65-89)
   (nm!"mux.ShardQueue.conn", .initOnly nms!["mux.NewShardQueue"]),
   (nm!"mux.ShardQueue.size", .initOnly nms!["mux.NewShardQueue"]),
-  -- shard slices: Add (:97-100) and the worker's swap (:146-150) between q.lock(shard) and q.unlock(shard)
-  (nm!"mux.ShardQueue.getters", .guarded .shardLock nms!["mux.ShardQueue.Add", "mux.ShardQueue.foreach$1"] nms!["mux.NewShardQueue"]),
+  -- shard slices: Add (:101-104), the worker's swap (:163-167) and Close's look at a shard in drained (:128-130)
+  -- between q.lock(shard) and q.unlock(shard)
+  (nm!"mux.ShardQueue.getters", .guarded .shardLock nms!["mux.ShardQueue.Add", "mux.ShardQueue.foreach$1", "mux.ShardQueue.drained"] nms!["mux.NewShardQueue"]),
   (nm!"mux.ShardQueue.idx", .atomicOnly []),
   (nm!"mux.ShardQueue.locks", .atomicOnly nms!["mux.NewShardQueue"]),
-  -- swap, r: only the worker, i.e. the closure started by the goroutine that raised runNum 0→1 (:136-139), until :163
+  -- swap, r: only the worker, i.e. the closure started by the goroutine that raised runNum 0→1 (:153-156), until :180
   (nm!"mux.ShardQueue.swap", .owned .runNum nms!["mux.ShardQueue.foreach$1"] nms!["mux.NewShardQueue"]),
   (nm!"mux.queueTrigger.r", .owned .runNum nms!["mux.ShardQueue.foreach$1"] []),
   (nm!"mux.queueTrigger.w", .guarded .listLock nms!["mux.ShardQueue.triggering"] []),
-  -- ring of triggered shards: slot written under listLock (:123-126) BEFORE atomic.AddInt32(&q.trigger,1) (:128); the
-  -- worker reads slot r (:143) only for entries counted by its atomic load of trigger (:141,156); a slot is reused only
-  -- after the worker emptied that shard under the shard lock, and a shard is listed at most once (:98,101): C17 model.
+  -- ring of triggered shards: slot written under listLock (:140-143) BEFORE atomic.AddInt32(&q.trigger,1) (:145); the
+  -- worker reads slot r (:160) only for entries counted by its atomic load of trigger (:158,173); a slot is reused only
+  -- after the worker emptied that shard under the shard lock, and a shard is listed at most once (:102,105): C17 model.
   (nm!"mux.queueTrigger.list", .handoff .listLock .runNum nms!["mux.ShardQueue.triggering"] nms!["mux.ShardQueue.foreach$1"] nms!["mux.NewShardQueue"]),
   (nm!"mux.queueTrigger.listLock", .syncObj []),
   (nm!"mux.queueTrigger.trigger", .atomicOnly []),
